@@ -36,10 +36,25 @@ def seeded_table():
     return "\n".join(rows)
 
 
+def benign_table():
+    base = os.path.join(V, "seeded_benign")
+    res = {r["seed"]: r for r in json.load(open(os.path.join(base, "RESULTS.json")))} if os.path.exists(os.path.join(base, "RESULTS.json")) else {}
+    rows = ["| refactor | kind | change (function) | first run of the checks | now |", "|---|---|---|---|---|"]
+    for m in sorted(glob.glob(os.path.join(base, "*", "meta.json"))):
+        sid = os.path.basename(os.path.dirname(m))
+        d = json.load(open(m))
+        fr = d.get("checks_as_first_run", {})
+        first = fr.get("outcome", "?") + (" (" + ", ".join(fr.get("by", [])) + ")" if fr.get("by") else "")
+        al = res.get(sid, {}).get("alarms", {})
+        now = ", ".join(f"{p} (exit {v['exit']})" for p, v in sorted(al.items())) or "silent"
+        rows.append(f"| {sid} | {d.get('refactor_kind', '')} | {str(d.get('title', ''))[:130].replace('|', '/')} (`{str(d.get('function', ''))[:50]}`) | {first} | {now} |")
+    return "\n".join(rows)
+
+
 def main():
     p = os.path.join(V, "DESIGN.md")
     s = open(p).read()
-    for name, fn in (("defects", defects_table), ("seeded", seeded_table)):
+    for name, fn in (("defects", defects_table), ("seeded", seeded_table), ("benign", benign_table)):
         b, e = f"<!-- BEGIN {name} -->", f"<!-- END {name} -->"
         if b in s and e in s:
             s = s[: s.index(b) + len(b)] + "\n" + fn() + "\n" + s[s.index(e):]
